@@ -406,18 +406,28 @@ package cluster_info
 //@ define snapNodeEmpty(nodes map[string]*node_info.NodeInfo) bool = forall n in nodes :: (forall k common_info.PodID :: !(k in nodes[n].PodInfos)) && node_info.noSharedGpus(nodes[n]) && nodes[n].Used.milliCpu == 0.0 && nodes[n].Used.memory == 0.0 && nodes[n].Releasing.milliCpu == 0.0 && nodes[n].Releasing.memory == 0.0 && nodes[n].Idle.milliCpu == nodes[n].Allocatable.milliCpu && nodes[n].Idle.memory == nodes[n].Allocatable.memory && (forall k v1.ResourceName :: !(k in nodes[n].Used.scalarResources) && !(k in nodes[n].Releasing.scalarResources) && nodes[n].Idle.scalarResources[k] == nodes[n].Allocatable.scalarResources[k] && (k in nodes[n].Idle.scalarResources <==> k in nodes[n].Allocatable.scalarResources))
 
 // GPUs offered through DRA ResourceSlices are added to Allocatable and Idle of the node (AddDRAGPUs); only amounts move.
+// frame of that step, per family it writes under a loop-variant node: objects that belong to no node of the map keep their value
+//@ define draOnlyNodeGpus(nodes map[string]*node_info.NodeInfo) bool = forall r *resource_info.Resource :: (forall n in nodes :: r != nodes[n].Allocatable && r != nodes[n].Idle) ==> r.gpus == old(r.gpus)
+//@ define draOnlyNodeFlags(nodes map[string]*node_info.NodeInfo) bool = forall x *node_info.NodeInfo :: (forall n in nodes :: x != nodes[n]) ==> x.HasDRAGPUs == old(x.HasDRAGPUs)
+//@ define draOnlyNodeVectors(nodes map[string]*node_info.NodeInfo) bool = forall p *float64 :: (forall n in nodes :: !incells(p, nodes[n].AllocatableVector) && !incells(p, nodes[n].IdleVector)) ==> *p == old(*p)
+//@ define slicesNonNil(m map[string][]*resourceapi.ResourceSlice) bool = forall s string, r **resourceapi.ResourceSlice :: s in m && incells(r, m[s]) ==> *r != nil
 //@ func (*ClusterInfo).populateDRAGPUs
 //@   props C14 C10
 //@   requires ciWF(c) && snapNodeOK(nodes)
 //@   modifies family(nodes[""].Allocatable.gpus), family(nodes[""].AllocatableVector[*]), family(nodes[""].HasDRAGPUs)
 //@   loop 1
 //@     invariant snapNodeOK(nodes)
-//@     invariant forall s in slicesByNode :: forall i int :: 0 <= i && i < len(slicesByNode[s]) ==> slicesByNode[s][i] != nil
+//@     invariant slicesNonNil(slicesByNode)
+//@     invariant draOnlyNodeGpus(nodes) && draOnlyNodeFlags(nodes) && draOnlyNodeVectors(nodes)
 //@   loop 2
 //@     invariant 0 - 1 <= rangeindex
 //@     invariant snapNodeOK(nodes)
-//@     invariant forall s in slicesByNode :: forall i int :: 0 <= i && i < len(slicesByNode[s]) ==> slicesByNode[s][i] != nil
+//@     invariant slicesNonNil(slicesByNode)
+//@     invariant draOnlyNodeGpus(nodes) && draOnlyNodeFlags(nodes) && draOnlyNodeVectors(nodes)
 //@   ensures [shapeKept] snapNodeOK(nodes)
+//@   ensures [onlyNodeGpus] draOnlyNodeGpus(nodes)
+//@   ensures [onlyNodeFlags] draOnlyNodeFlags(nodes)
+//@   ensures [onlyNodeVectors] draOnlyNodeVectors(nodes)
 //@ end
 
 // C14 / C01 (establish) + C10 "nodes without labels or with zero capacity": one NodeInfo per listed node, stored under
@@ -432,7 +442,7 @@ package cluster_info
 //@     invariant forall i int :: 0 <= i && i < len(nodes) ==> nodes[i] != nil
 //@     invariant resource_info.vmWF(vectorMap)
 //@     invariant resultNodes != nil && fresh(resultNodes)
-//@     invariant forall n in resultNodes :: fresh(resultNodes[n]) && fresh(resultNodes[n].PodInfos) && fresh(resultNodes[n].Used) && fresh(resultNodes[n].Releasing) && fresh(resultNodes[n].Idle) && fresh(resultNodes[n].Allocatable)
+//@     invariant forall n in resultNodes :: fresh(resultNodes[n]) && fresh(resultNodes[n].PodInfos) && fresh(resultNodes[n].Used) && fresh(resultNodes[n].Releasing) && fresh(resultNodes[n].Idle) && fresh(resultNodes[n].Allocatable) && resource_info.freshArray(resultNodes[n].AllocatableVector) && resource_info.freshArray(resultNodes[n].IdleVector)
 //@     invariant snapNodeOK(resultNodes)
 //@     invariant snapNodeEmpty(resultNodes)
 //@   ensures [listError] err != nil ==> nodesMap == nil
